@@ -24,7 +24,7 @@ RULE = ('a case = one (expression, input string, chunking) run of a real machine
         'then seeded larger ones; distinct by (expression text, input, chunking); non-trivial = the oracle comparison was evaluated (always) and the input is non-empty')
 ASSUMPTIONS = ['greenery syntax == re syntax for the generated constructs (checked: oracle vs re.fullmatch on every prefix)',
                "'.' and negated classes match any symbol, including ones outside the expression's alphabet"]
-REQUIRED = ['str:runs', 'str:accepted', 'str:rejected-nonterminal', 'str:stopped-before-end-accepting', 'str:input-exhausted-not-accepting',
+REQUIRED = ['expressions:control-symbols', 'str:runs', 'str:accepted', 'str:rejected-nonterminal', 'str:stopped-before-end-accepting', 'str:input-exhausted-not-accepting',
             'bytes-ascii:runs', 'bytes-multibyte:runs', 'oracle:re-crosschecks', 'chunking:two-way', 'chunking:bytewise', 'bytes-multibyte:truncated-encoding']
 TIMEOUT = {'quick': 300, 'thorough': 2400}
 SOFT = {'quick': 40, 'thorough': 900}
@@ -328,6 +328,19 @@ def run(ctx):
         alpha = 'abc.*d'
         inputs = [''.join(rng.choice(alpha) for _ in range(rng.randrange(0, 12))) for _ in range(25)]
         mon.expression(ast, inputs, lambda w: 2 if len(w) <= 6 else 1)
+    # symbols whose byte values coincide with small integers and booleans (0, 1), and other control characters: for a machine over
+    # bytes the symbols are ints, so anything in the framework that uses True/False/None/-1 as a placeholder key is one hash away
+    ctl_atoms = [('lit', '\x01'), ('lit', '\x00'), ('lit', 'a'), ('set', '\x01a'), ('nset', '\x01'), ('nset', '\x01a'), ('nset', '\x00\x01'), ('nset', '\x00\x01\x02'),
+                 ('nset', 'a'), ('any',), ('lit', '\x7f'), ('nset', '\x02\x7f')]
+    for i in range(40 if quick else 20000):
+        if ctx.time_left() < SOFT[ctx.tier] * 0.2:
+            break
+        ast = rx.random_ast(rng, rng.choice([1, 2, 3, 4, 5]), ctl_atoms)
+        if rx.postfixed_twice(ast) or rx.expanded_size(ast) > 60:
+            continue
+        inputs = [''.join(rng.choice('\x00\x01\x02a\x7fb') for _ in range(rng.randrange(0, 8))) for _ in range(20)]
+        mon.expression(ast, inputs, lambda w: 2 if len(w) <= 5 else 1)
+        ctx.count('expressions:control-symbols')
     # multi-byte literal expressions over bytes
     mb_atoms = [('lit', 'a'), ('lit', 'é'), ('lit', 'ж'), ('lit', '€'), ('lit', '😀')]
     rounds = 120 if quick else 100000
